@@ -492,6 +492,12 @@ func judge(cf *config, im *impl, before mstate, txn []op) judged {
 	var j judged
 	exps := expectations(sc, before, txn)
 	res := im.runTxn(txn)
+	if res.CommitPanic != "" {
+		// the database is unusable from here on (state published, merge failed)
+		j.fails = []failure{{msg: "committing the transaction panicked in commit/merge (every operation had been accepted): " + res.CommitPanic}}
+		j.outcome = "commit-panic"
+		return j
+	}
 	after := im.read()
 	if os.Getenv("C08_DEBUG") != "" {
 		fmt.Printf("DEBUG ops=%+v committed=%v abort=%q after=%s\n", res.Ops, res.Committed, res.AbortMsg, sc.showState(after))
